@@ -35,6 +35,13 @@
   function drives the theorems (all interleavings = all label sequences) and the replay of real
   executions (`Drivers/C10.lean`).  Ghost fields (`log`, `dropped`, `consumed`, `popped`,
   `pushAtStop`, `since`) never influence a non-ghost field or the enabledness of a step.
+  (`headSeen`, `must`, `floor` are not ghost: they are the state of the two specifications above —
+  what a running `try_pop_n` / `low_water_mark()` call is already committed to.)
+  Client contract built into `step`: reclaimer ids are distinct (`callRetire` needs an unused id),
+  `retire(r, e)` gets an `e` some tick returned (`1 ≤ e ≤ gver`), `stop()` is called once, `start()`
+  was called (the collector exists from the initial state on).  `retire` concurrent with or after
+  `stop()` is *not* excluded: such a task is queued behind the marker and the model does what the
+  code does with it (skipped if popped in the marker's callback invocation, appended otherwise).
   Core Lean only.
 -/
 import Babylon.Gen.GC
